@@ -370,7 +370,7 @@ impl<const N: usize> Ex<N> {
         for v in &vs {
             t.push_back(Tracked::new(*v, Origin::Harness));
         }
-        let want_eq = va == &vs[..];
+        let want_eq = va.len() == vs.len() && va.iter().zip(vs.iter()).all(|(a, b)| a == b && *a != crate::elem::NAN_VAL);
         let want_ord = lex_cmp(va, &vs);
         let has_nan = va.contains(&crate::elem::NAN_VAL) || vs.contains(&crate::elem::NAN_VAL);
         let want_partial: Option<Ordering> = {
@@ -400,8 +400,12 @@ impl<const N: usize> Ex<N> {
         }
         let a = self.bufs[x].as_ref().unwrap();
         let tr = &t;
+        let a_has_nan = va.contains(&crate::elem::NAN_VAL);
         let r = window(|| {
-            let eq1 = **a == **tr;
+            // comparing a buffer with itself is still element-wise (not reflexive for NaN-like values)
+            #[allow(clippy::eq_op)]
+            let self_eq = **a == **a;
+            let eq1 = **a == **tr && (self_eq == !a_has_nan);
             let eq2 = **tr == **a;
             let ne = **a != **tr;
             let pc = (**a).partial_cmp(&**tr);
